@@ -334,6 +334,30 @@ func veClip(s string) string {
 	return vhHex(s)
 }
 
+// veClipPair: both bodies cut to a window around their first difference
+func veClipPair(a, b string) (string, string) {
+	p := 0
+	for p < len(a) && p < len(b) && a[p] == b[p] {
+		p++
+	}
+	from := p - 150
+	if from < 0 {
+		from = 0
+	}
+	cut := func(s string) string {
+		to := p + 450
+		if to > len(s) {
+			to = len(s)
+		}
+		pre := ""
+		if from > 0 {
+			pre = "..."
+		}
+		return vhHex(pre + s[from:to])
+	}
+	return cut(a), cut(b)
+}
+
 func veE2E(t *veToks) string {
 	expire := t.i64()
 	intervals := t.int()
@@ -474,7 +498,8 @@ func veE2E(t *veToks) string {
 	// later reads, pairwise: the stack that has served a batch of GETs answers the sweep as the stack that has not
 	for i := range sweep {
 		if verdict == "same" && (swA[i].code != swB[i].code || swA[i].body != swB[i].body) {
-			verdict = fmt.Sprintf("DIFF:sweep:%d:%d:%s:%d:%s", i, swA[i].code, veClip(swA[i].body), swB[i].code, veClip(swB[i].body))
+			ca, cb := veClipPair(swA[i].body, swB[i].body)
+			verdict = fmt.Sprintf("DIFF:sweep:%d:%d:%s:%d:%s", i, swA[i].code, ca, swB[i].code, cb)
 		}
 	}
 	// later reads, within one stack: the same request repeated (same clock value, inside the evaluator's cache
@@ -489,7 +514,8 @@ func veE2E(t *veToks) string {
 				continue
 			}
 			if verdict == "same" && (sw[i].code != sw[j].code || sw[i].body != sw[j].body) {
-				verdict = fmt.Sprintf("DIFF:repeat%s:%d:%d:%s:%d:%s", []string{"A", "B"}[si], j, sw[j].code, veClip(sw[j].body), i, veClip(sw[i].body))
+				cj, ci := veClipPair(sw[j].body, sw[i].body)
+				verdict = fmt.Sprintf("DIFF:repeat%s:%d:%d:%s:%d:%s", []string{"A", "B"}[si], j, sw[j].code, cj, i, ci)
 			}
 		}
 	}
